@@ -1295,6 +1295,10 @@ class ElementAction(MosFile):
         Classify the MOS type and return an instance of the relevant class
         """
         ea = xml.find('roElementAction')
+        if ea is None:
+            # reached through ElementAction.from_file/from_string/from_s3 on
+            # a document that holds some other message (or none)
+            raise UnknownMosFileType("Unable to determine MOS file type: no roElementAction found")
         operation = ea.attrib.get('operation')
 
         # are there any itemID tags in element_target?
